@@ -1514,8 +1514,18 @@ def sym_round(x, nd=None):
         ENG.add_axiom(z3.IsInt(r), 0)
         ENG.add_axiom(z3.And(2 * (r - x.t) <= 1, 2 * (x.t - r) <= 1), 0)   # ties: either neighbour (over-approximation of banker's rounding)
         return Sym(r, builtins.int, s=_sf(lambda v: float(round(v)), x.s))
+    if isinstance(x, Sym) and type(nd) is builtins.int and -20 <= nd <= 20:
+        # round(x, nd) over the reals: some r with r * 10**nd an integer and |r - x| * 10**nd <= 1/2 (ties: either
+        # neighbour - an over-approximation of round-half-even; the float nearest to that decimal is outside mode R)
+        scale = z3.RealVal(10 ** nd) if nd >= 0 else z3.RealVal(1) / z3.RealVal(10 ** -nd)
+        k = ENG.newvar('int')
+        r = ENG.newvar('rnd')
+        ENG.add_axiom(z3.IsInt(k), 0)
+        ENG.add_axiom(r * scale == k, 0)
+        ENG.add_axiom(z3.And(2 * (k - x.t * scale) <= 1, 2 * (x.t * scale - k) <= 1), 0)
+        return Sym(r, builtins.float, s=_sf(lambda v: builtins.round(v, nd), x.s))
     if isinstance(x, Sym):
-        raise TypeError('round(x, ndigits) of a symbolic number is not modelled')
+        raise TypeError('round(x, ndigits) of a symbolic number is not modelled for this ndigits')
     return builtins.round(x) if nd is None else builtins.round(x, nd)
 
 
